@@ -60,7 +60,7 @@ def main():
          'setup_cmd': 'python3-vt -m compileall -q sa tools',
          'hooks': {'guard': 'PLAYBACK_VERIF', 'enable': 'no hooks: every check parses /repo\'s current source with ast and never imports or runs it; the guard variable is declared for the interface only and nothing reads it',
                    'baseline_off_cmd': BASE,
-                   'source_commits': ['a516882', 'e25cba7', 'cd54225', '6538128', 'a198133', '0c3e72b', '8de5114', '129fb30', 'e4b5f23'],
+                   'source_commits': ['a516882', 'e25cba7', 'cd54225', '6538128', 'a198133', '0c3e72b', '8de5114', '129fb30', 'e4b5f23', 'bcc5f54'],
                    'add_only': True},
          'engines': [{'name': 'sa', 'path': 'sa/', 'serves_properties': sorted(CHECKS),
                       'kind_free_text': 'repository-specific static analyser: ast loader + callee resolver, statement CFG with exceptional edges and contextmanager / helper inlining, path-sensitive abstract interpretation over a finite domain, per-property rule modules'}],
